@@ -207,7 +207,7 @@ theorem longestPrefix_tok {in1 in2 t1 t2 : Bytes} (h1 : NoBrace in1) (h2 : NoBra
     in1 = in2 ∧ ((in1.length + 3 : Nat) : Int) ≤
       longestPrefix (startByte :: (in1 ++ endByte :: t1)) (startByte :: (in2 ++ endByte :: t2)) := by
   unfold longestPrefix at hpos ⊢
-  simp only [lpLoop, ne_eq, not_true_eq_false, if_false, if_true] at hpos ⊢
+  simp only [lpLoop, ne_eq, not_true_eq_false, if_false, if_true, Bool.false_eq_true] at hpos ⊢
   rcases lp_inner in1 in2 t1 t2 (0 + 1) ((0 : Nat) : Int) (-10) h1 h2 ht1 ht2 with h | ⟨e, h⟩
   · rw [h] at hpos; simp at hpos
   · refine ⟨e, ?_⟩
